@@ -24,6 +24,9 @@ with pr_cat (c: cat) : list tt :=
   | CNamed path => pr_path path
   | CLifetime a => [TP PQuote; TId a]
   | CUnNamed => []
+  | CNone => []
+  | CAnon fs =>          (* "{\n\tname: type\n ... }\n": no separators between the fields *)
+      [TG Brace (flat_map (fun x => match x with (_, Some n, t) => TId n :: TP PColon :: pr t | (_, None, _) => [] end) fs)]
   end
 with pr_cvt (v: cvt) : list tt :=
   match v with
